@@ -13,6 +13,7 @@
 (*                  with the field's mean and trend, process / keep_mean   *)
 (*   InitNormExact  the normalizer pairs that are rational functions       *)
 (*   InitRange      the (de)normalisation domain table                     *)
+(*   InitFix        reference points x0 |-> 0 of all pairs                 *)
 (*   InitForce      array_force_moments                                    *)
 (*                                                                         *)
 (* Numbers: the discrete sections use integers in QUARTER units (4 = 1.0), *)
@@ -27,6 +28,7 @@ CONSTANTS
   Grid,        \* sequence of input values (quarter units) covering all thresholds +- 1/4
   EqGrids,     \* set of input sequences for the 'equal' mode with the sample mean
   EqMeans,     \* explicitly given means for the 'equal' mode (quarter units)
+  EqSds,       \* standard deviations for 'equal' with 3 / 4 classes (quarter units)
   MaxLen,      \* longest value list
   WrapPos,     \* sequence of 1-D positions (integers) of the wrapper cases
   WrapData,    \* sequence of pre-processed data values (quarter units), one per position
@@ -107,6 +109,21 @@ EqualTwo(f, vals, meanNum, meanDen) ==
 
 Binary(f, divide, lower, upper) == Discrete(f, <<lower, upper>>, <<divide>>)
 
+(* three / four classes of equal probability: thresholds  mean + sd z  with the normal quantiles
+   z(1/3) = -z(2/3) = -0.430727..., z(1/4) = -z(3/4) = -0.674489..., z(1/2) = 0, enclosed in
+   units of 1/10000.  An input is classified when it lies on the same side of the whole
+   enclosure (always the case on the quarter lattice; asserted). *)
+ZEnc(n) == CASE n = 3 -> <<<<-4308, -4307>>, <<4307, 4308>>>>
+             [] n = 4 -> <<<<-6745, -6744>>, <<0, 0>>, <<6744, 6745>>>>
+BelowAll(f, m, sd, enc) == (f - m) * 10000 <= sd * enc[1]     \* f <= m + sd z for every z in enc
+AboveAll(f, m, sd, enc) == (f - m) * 10000 > sd * enc[2]      \* f >  m + sd z for every z in enc
+EqualN(f, vals, m, sd) ==
+  LET n == Len(vals)
+  IN  IF \E k \in 1..(n - 1) : ~BelowAll(f, m, sd, ZEnc(n)[k]) /\ ~AboveAll(f, m, sd, ZEnc(n)[k])
+      THEN Assert(FALSE, <<"input inside a quantile enclosure", f, m, sd>>)
+      ELSE vals[CHOOSE k \in 1..n : (k = 1 \/ AboveAll(f, m, sd, ZEnc(n)[k - 1]))
+                                    /\ (k = n \/ BelowAll(f, m, sd, ZEnc(n)[k]))]
+
 DiscreteCases ==
   {[sec |-> "discrete", mode |-> "arithmetic", vals |-> v, thr |-> ArithmeticThresholds(v),
     grid |-> Grid,
@@ -120,6 +137,10 @@ DiscreteCases ==
   {[sec |-> "discrete", mode |-> "equal", vals |-> p[1], thr |-> <<p[2]>>, grid |-> Grid,
     res |-> [i \in 1..Len(Grid) |-> EqualTwo(Grid[i], p[1], p[2], 1)]]
      : p \in SeqsOf(ValPool, 2) \X EqMeans}
+  \cup
+  {[sec |-> "discrete", mode |-> "equal_n", vals |-> p[1], thr |-> <<p[2], p[3]>>, grid |-> Grid,
+    res |-> [i \in 1..Len(Grid) |-> EqualN(Grid[i], p[1], p[2], p[3])]]
+     : p \in UNION {SeqsOf(ValPool, n) \X EqMeans \X EqSds : n \in {3, 4} \cap (1..MaxLen)}}
   \cup
   {[sec |-> "discrete", mode |-> "equal_sample", vals |-> p[1], thr |-> <<SumSeq(p[2]), Len(p[2])>>,
     grid |-> p[2],
@@ -338,6 +359,21 @@ ImageIsValid ==
   (c.sec = "range" /\ c.dir = "normalize" /\ c.cls = "Valid" /\ IntLam(c.lam)
      /\ NormDefined(c.norm, c.lam[1], c.shift, c.v)) =>
         Classify(c.norm, c.lam, c.shift, "denormalize", NormExact(c.norm, c.lam[1], c.shift, c.v)) = "Valid"
+
+(* reference points: every pair, also the transcendental ones (log / exp), maps its reference
+   point to 0 exactly:  log 1 = 0,  (1^lmbda - 1)/lmbda = 0,  (exp(0) - 1)/lmbda = 0 *)
+RefPoint(norm, s) ==
+  CASE norm \in {"LogNormal", "BoxCox"} -> RI(1)
+    [] norm = "BoxCoxShift"             -> RSub(RI(1), s)
+    [] OTHER                            -> RI(0)
+
+InitFix ==
+  c \in {[sec |-> "fix", norm |-> cf[1], lam |-> cf[2], shift |-> cf[3],
+          x |-> RefPoint(cf[1], cf[3]), y |-> RI(0)] : cf \in RangeCfgs}
+
+FixInsideRanges ==
+  c.sec = "fix" => /\ Classify(c.norm, c.lam, c.shift, "normalize", c.x) = "Valid"
+                   /\ Classify(c.norm, c.lam, c.shift, "denormalize", c.y) = "Valid"
 
 -----------------------------------------------------------------------------
 (* C19: array_force_moments: out = sqrt(var / var_in) (f - mean_in) + mean, so the SAMPLE mean
